@@ -532,5 +532,37 @@ def r5_factories(chk):
                    where(model.mod(PARSER), x), norm(x))
 
 
-RULES = [r1_inclusion_and_conflicts, r2_shared_terms, r3_added_alternatives, r4_lexer_tables, r5_factories]
+
+def r6_tables_belong_to_their_grammar(chk):
+    """The parser / lexer a dialect gets is built from *its* productions.  ply may cache tables on disk; it re-checks a
+    cached table against the grammar's signature unless told to trust it (optimize=...), and it can be pointed at one
+    fixed file (picklefile= / lextab= / tabmodule=).  A trusted table at a location that does not depend on the
+    relaxation options makes every dialect run on the tables of whichever dialect was cached first."""
+    model = chk.model
+    chk.doc('C17.R6', 'every yacc.yacc(...) / lex.lex(...) call in pysmi/parser and pysmi/lexer: no optimize= argument '
+                      'that can be true and no fixed table location (picklefile= / tabmodule= / lextab=): tables are '
+                      'generated from, or signature-checked against, the grammar of the dialect at hand')
+    n = 0
+    for rel in ('pysmi/parser/smi.py', 'pysmi/lexer/smi.py', 'pysmi/parser/base.py', 'pysmi/lexer/base.py'):
+        mod = model.mod(rel, required=False)
+        if mod is None:
+            continue
+        for c in ast.walk(mod.tree):
+            if isinstance(c, ast.Call) and dotted_name(c.func) in ('yacc.yacc', 'lex.lex', 'ply.yacc.yacc', 'ply.lex.lex'):
+                n += 1
+                bad = []
+                for k in c.keywords:
+                    if k.arg == 'optimize' and not (isinstance(k.value, ast.Constant) and not k.value.value):
+                        bad.append('optimize=%s (cached tables are used without the signature check)' % norm(k.value))
+                    if k.arg in ('picklefile', 'tabmodule', 'lextab') and not (
+                            isinstance(k.value, ast.Constant) and k.value.value is None):
+                        bad.append('%s=%s (one table location for all dialects)' % (k.arg, norm(k.value)))
+                    if k.arg is None:
+                        bad.append('**%s (options not visible)' % norm(k.value))
+                chk.ob('C17.R6', '%s/%s#%d' % (rel.split('/')[1], dotted_name(c.func), n), not bad, where(mod, c),
+                       '; '.join(bad))
+    chk.floor('C17.R6', 4, 'two yacc.yacc and two lex.lex calls')
+
+
+RULES = [r1_inclusion_and_conflicts, r2_shared_terms, r3_added_alternatives, r4_lexer_tables, r5_factories, r6_tables_belong_to_their_grammar]
 THOROUGH_RULES = [r1_thorough_all_subsets]
